@@ -1,8 +1,26 @@
 #!/bin/bash
-# usage: tools/mutate.sh <patch.diff> <ID> [tier]  -- applies a patch to /repo, runs the check, reverts.
-P="$(realpath "$1")"; ID="$2"; TIER="${3:-quick}"
-git -C /repo apply "$P" || { echo "patch does not apply"; exit 3; }
-/verif/check "$ID" --tier "$TIER" > /tmp/mut.$$.log 2>&1; rc=$?
-git -C /repo checkout -- . ; git -C /repo clean -fdq
-echo "exit=$rc"; grep -c '^VIOLATION' /tmp/mut.$$.log; grep -m3 '^VIOLATION\|CHECK-ERROR' /tmp/mut.$$.log | cut -c1-400; rm -f /tmp/mut.$$.log
+# usage: tools/mutate.sh <patch.diff> <ID> [tier] [--tests]
+# Applies a patch to a SCRATCH worktree of /repo (never to /repo itself), optionally runs the
+# repository's own test suite there (--tests: must still pass for a valid mutant), runs the check
+# against the scratch tree, prints a summary, removes the worktree. Exit code = the check's.
+P="$(realpath "$1")"; ID="$2"; TIER="quick"; TESTS=0
+shift 2
+for a in "$@"; do case "$a" in --tests) TESTS=1;; *) TIER="$a";; esac; done
+export GOFLAGS=-mod=mod GOPROXY=off GOSUMDB=off GOTOOLCHAIN=local
+WT="$(mktemp -d /tmp/mut-XXXXXX)"; rmdir "$WT"
+git -C /repo worktree add -q --detach "$WT" HEAD || exit 3
+# carry uncommitted changes of /repo (normally none)
+git -C /repo diff | git -C "$WT" apply 2>/dev/null
+cleanup() { git -C /repo worktree remove --force "$WT" 2>/dev/null; rm -rf "$WT" /verif/.build/*-"$(echo "$WT" | md5sum | cut -c1-8)"; }
+trap cleanup EXIT
+git -C "$WT" apply "$P" || { echo "MUTANT: patch does not apply"; exit 3; }
+if [ $TESTS = 1 ]; then
+  if (cd "$WT" && go build ./... && go test -vet=off -count=1 ./... ) > "$WT.tests.log" 2>&1; then echo "MUTANT: builds, repository tests PASS"; else echo "MUTANT: INVALID (build or repository tests fail)"; tail -20 "$WT.tests.log"; rm -f "$WT.tests.log"; exit 4; fi
+  rm -f "$WT.tests.log"
+fi
+LOG="$(mktemp /tmp/mutlog-XXXXXX)"
+VERIF_REPO="$WT" /verif/check "$ID" --tier "$TIER" > "$LOG" 2>&1; rc=$?
+echo "MUTANT: check exit=$rc violations=$(grep -c '^VIOLATION' "$LOG")"
+grep -m3 '^VIOLATION\|CHECK-ERROR' "$LOG" | cut -c1-500
+rm -f "$LOG"
 exit $rc
